@@ -206,10 +206,21 @@ def enumerate_all(ck, tmp):
                 for desc in ({lname: lval, name: lval}, {name: lval, lname: lval}):
                     for_reqs.append(["encode", d["class"], desc, lfiles, []])
                     for_meta.append((sp, d["class"], name, desc))
+    # the reporting-policy names are used as a LIST (the argument of every condition / directive): a foreign name in the list is refused,
+    # alone, after and before a legitimate bit — not skipped
+    pol = reg["spaces"].get("reporting-policy", {}).get("entries", {})
+    if pol and "SuitRepPolicy" in cl:
+        first = next(iter(pol))
+        for name in vocab:
+            if name in pol:
+                continue
+            for desc in ([name], [first, name], [name, first], list(pol) + [name]):
+                for_reqs.append(["encode", "SuitRepPolicy", desc, [], []])
+                for_meta.append(("reporting-policy", "SuitRepPolicy", name, desc))
     mres = interp.model_batch(ck, for_reqs)
     for (sp, cname, name, desc), mr in zip(for_meta, mres):
         ires = interp.run_impl(interp.impl_encode, cname, desc)
-        ck.count("foreign", (sp, name, len(desc) if isinstance(desc, dict) else 0, next(iter(desc)) if isinstance(desc, dict) else ""), nontrivial=True,
+        ck.count("foreign", (sp, name, len(desc) if isinstance(desc, (dict, list)) else 0, next(iter(desc)) if isinstance(desc, (dict, list)) else ""), nontrivial=True,
                  sample={"space": sp, "foreign_name": name, "entries": len(desc) if isinstance(desc, dict) else 1})
         if mr != ires and not any(b[1] == "Interp.from_obj (rejection)" for b in ck.broken):
             ck.broken.append(("corr", "Interp.from_obj (rejection)", f"{cname} {desc}: model {short(mr)} implementation {short(ires)}"))
